@@ -1,8 +1,8 @@
 package model
 
 import (
-	"io"
 	"fmt"
+	"io"
 	"strconv"
 	"strings"
 	"sync"
